@@ -120,7 +120,8 @@ class C13(core.Check):
             elif prio is None:   # Hook.__init__: getattr(callback, 'priority', 50)
                 prio = fa.get('priority', 50)
             return (when, POINTS[pt], code, prio, bool(fa.get('failsafe', False)))
-        setup = find_fn(tool.body, '_setup')
+        from ..translate import pynorm
+        setup = pynorm.inline_methods(tool, find_fn(tool.body, '_setup'))   # private helper methods, in place
         rows = []
 
         def walk(stmts, when):
